@@ -11,7 +11,10 @@ jointly with the answers of scripted state functions.
     differ from the default.  All programs with <= 2 (quick) / <= 3 (thorough) non-default entries are covered.
   * Operations {cycle, start(A), start(B, attr=n), start(A, cleanup=K), stop} (thorough: + start(C, attr=n, cleanup=K));
     n is a fresh number for every start so that "exactly the attributes of the last start" is observable.
-    All sequences to depth 5 (quick) / 6 (thorough).
+    Sequences of ANY length: the BFS runs to closure of the canonical state graph (every shard closes after histories
+    of 9-15 operations; DEPTH = 40 is only a safety bound and reported as a cap if ever reached).  In particular any
+    number of requests (start then stop, stop then start, stop stop ...) is issued at every cycle boundary while a
+    cleanup sequence spans several cycles (profile 'cleanupL': K -> L, L retries until told otherwise).
   * Enumeration: a node is (operation history, script entries consumed so far that are non-default).  Expanding a node by
     an operation runs vf.engines.enumx.explore_deviations over the function calls made *in that operation* with the
     remaining deviation budget, every execution rebuilding fresh real objects and replaying the history.  Because a
